@@ -684,17 +684,36 @@ def _r16_3(res, P, cfgname, collect=None):
     if collect is not None:
         collect.update(other)
         return
-    # frozen inventory of the remaining unwrap/expect sites
+    # frozen inventory of the remaining unwrap/expect sites.  Sites that merely *moved* (a helper inlined into
+    # its caller, a block moved to a sibling function) are tolerated: a surplus in one function of a crate is
+    # accepted when the same number of reviewed sites of the same method disappeared from functions of that
+    # crate in this very configuration (per-configuration table `_per_config`).
+    percfg = (inventory.get("_per_config") or {}).get(cfgname)
+    deficit = defaultdict(int)
+    if percfg:
+        for k, lim in percfg.items():
+            c = other.get(k, 0)
+            if c < lim:
+                crate = k.lstrip("<").split("::", 1)[0]
+                deficit[(crate, k.rsplit("|", 1)[-1])] += lim - c
     for k, c in sorted(other.items()):
-        lim = inventory.get(k)
-        key = "inventory|" + k
+        lim = (percfg.get(k) if percfg else None)
         if lim is None:
+            lim = inventory.get(k)
+        key = "inventory|" + k
+        surplus = c if lim is None else max(0, c - lim)
+        if surplus == 0:
+            res.ok("R16.3", cfgname, key, nontrivial=False)
+            continue
+        dk = (k.lstrip("<").split("::", 1)[0], k.rsplit("|", 1)[-1])
+        if deficit.get(dk, 0) >= surplus:
+            deficit[dk] -= surplus
+            res.ok("R16.3", cfgname, key + "|moved", sample=dict(site=k, note="%d reviewed %s site(s) of this crate moved here from another function" % (surplus, dk[1])))
+        elif lim is None:
             # functions of optional crates may be absent from the inventory only if never seen: fail closed
             res.fail("R16.3", cfgname, key, "new unwrap()/expect() site not in the reviewed inventory: %s (x%d)" % (k, c))
-        elif c > lim:
-            res.fail("R16.3", cfgname, key, "%s has %d unwrap()/expect() sites, the reviewed inventory has %d" % (k, c, lim))
         else:
-            res.ok("R16.3", cfgname, key, nontrivial=False)
+            res.fail("R16.3", cfgname, key, "%s has %d unwrap()/expect() sites, the reviewed inventory has %d" % (k, c, lim))
 
 
 # ---- R16.4 ----------------------------------------------------------------------------------------
